@@ -533,6 +533,7 @@ pub fn generate(seed: u64, gp: &GenParams) -> Scenario {
     let n_rounds = 1 + r.below(gp.max_rounds);
     let mut rounds = Vec::new();
     let mut g = GraphState::default();
+    let mut undo_prev: Vec<Edit> = Vec::new();
     for round in 0..n_rounds {
         let mut edits = Vec::new();
         if round == 0 {
@@ -655,12 +656,23 @@ pub fn generate(seed: u64, gp: &GenParams) -> Scenario {
             }
         } else {
             let k = if r.chance(1, 4) { r.below(2 * gp.edits_max + 2) } else { r.below(gp.edits_max + 1) };
+            let mut undo_next: Vec<Edit> = Vec::new();
             for _ in 0..k {
-                if let Some(e) = draw_edit(&mut r, gp, &cfg, &defs, &g) {
+                // one edit in six takes back an edit of the previous round (try something, revert it)
+                let e = if !undo_prev.is_empty() && r.chance(1, 6) {
+                    Some(undo_prev[r.below(undo_prev.len())].clone())
+                } else {
+                    draw_edit(&mut r, gp, &cfg, &defs, &g)
+                };
+                if let Some(e) = e {
+                    if let Some(inv) = inverse_edit(&defs, &g, &e) {
+                        undo_next.push(inv);
+                    }
                     g.apply(&defs, &e);
                     edits.push(e);
                 }
             }
+            undo_prev = undo_next;
             if rename_heavy {
                 for d in 0..n_defs {
                     if defs[d].universe.len() > 1 && r.chance(1, 3) {
@@ -804,6 +816,42 @@ fn draw_edit(r: &mut Rng, gp: &GenParams, cfg: &Config, defs: &[Def], g: &GraphS
             Some(Edit::SetKind { def: d, kind: to })
         }
         _ => None, // pure re-evaluation
+    }
+}
+
+/// the edit that takes `e` back, given the graph state before `e` is applied
+fn inverse_edit(defs: &[Def], g: &GraphState, e: &Edit) -> Option<Edit> {
+    match e {
+        Edit::AddJob { def } => {
+            if g.present.contains(def) {
+                None
+            } else {
+                Some(Edit::RemoveJob { def: *def })
+            }
+        }
+        Edit::RemoveJob { def } => {
+            if g.present.contains(def) {
+                Some(Edit::AddJob { def: *def })
+            } else {
+                None
+            }
+        }
+        Edit::AddEdge { down, up, .. } => match g.edges.get(&(*down, *up)) {
+            None => Some(Edit::RemoveEdge { down: *down, up: *up }),
+            Some(c) => Some(Edit::AddEdge { down: *down, up: *up, consumed: c.clone() }),
+        },
+        Edit::RemoveEdge { down, up } => g.edges.get(&(*down, *up)).map(|c| Edit::AddEdge { down: *down, up: *up, consumed: c.clone() }),
+        Edit::BumpExt { def } => Some(Edit::RevertExt { def: *def }),
+        Edit::RevertExt { def } => Some(Edit::BumpExt { def: *def }),
+        Edit::DeleteOutput { .. } => None,
+        Edit::SetParts { def, .. } => g.parts.get(def).map(|p| Edit::SetParts { def: *def, parts: p.clone() }),
+        Edit::SetKind { def, .. } => {
+            if *def < defs.len() {
+                Some(Edit::SetKind { def: *def, kind: g.kind_of(defs, *def) })
+            } else {
+                None
+            }
+        }
     }
 }
 
